@@ -874,7 +874,7 @@ func c15KeyRewritesIn(f *kit.Func) []c15Norm {
 		if !ok {
 			return true
 		}
-		a, b, op, isCmp := kit.CmpAtom(is.Cond)
+		a, b, op, isCmp := kit.CmpAtom(kit.NormaliseEmptyTest(info, is.Cond))
 		if !isCmp || op != token.EQL {
 			return true
 		}
